@@ -22,6 +22,10 @@ func init() {
 }
 
 func runC01(c *core.Ctx) {
+	c.Rule("CSVNUM", "csv: a column of integers and floats is inferred as Float")
+	checkCSVNumericInference(c, "CSVNUM")
+	c.Rule("STARQ", "q.* with a qualifier matching no column is rejected")
+	checkStarQualifier(c, "STARQ")
 	c.Rule("UNIQ", "output column names are made pairwise distinct")
 	checkUniqueNaming(c, "UNIQ")
 	c.Rule("FMTSTR", "printf-style calls have constant format strings")
